@@ -1,6 +1,6 @@
 """C05 (one action per snapshot), C06 (documented rule on documented data), C07 (compounds / decorators),
 C08 (outcome), C14 (reports)."""
-import random, json, collections, math, itertools
+import random, json, collections, math, itertools, re
 import vlib
 from vlib import il, fl, streams, h2f, f2h
 from catalog import gen_ohlcv, REGIMES
@@ -66,9 +66,13 @@ def run_strats(cases, prefix='s'):
     return lines, vlib.run_go(lines), vlib.run_model(lines)
 
 
+STRAT_MISMATCH_IDS = set()     # cases on which Go differs from the as-is model in the last correspondence run
+
+
 def strat_correspondence(res, cases, lines, go, model):
     mism = 0
     comps = set()
+    STRAT_MISMATCH_IDS.clear()
     for i, c in enumerate(cases):
         cid = lines[i].split(' ')[0]
         g, m = parse_strat(go.get(cid, 'missing')), parse_strat(model.get(cid, 'missing'))
@@ -77,6 +81,7 @@ def strat_correspondence(res, cases, lines, go, model):
                 continue
             mism += 1
             comps.add(c[0])
+            STRAT_MISMATCH_IDS.add(cid)
             res.violation({'broken': 'correspondence', 'name': 'STRAT ' + c[0], 'config': {'ns': c[1], 'fs': c[2]},
                            'regime': c[4], 'n': len(c[3]['c']), 'go_output': go.get(cid, 'missing')[:400],
                            'model_output': model.get(cid, 'missing')[:400], 'line': lines[i][:3000]}, True)
@@ -311,7 +316,7 @@ def check_c06(res, tier, replay):
                            'previous_values': prev if sc.get('needs_prev') else None, 'snapshot': snap}
         cells.add((name, tuple(ns), regime))
         if problem:
-            if name in findings:
+            if name in findings and lines[i].split(' ')[0] not in STRAT_MISMATCH_IDS:
                 known[name] += 1
                 continue
             bad += 1
@@ -796,7 +801,10 @@ def check_c14(res, tier, replay):
                         else:
                             stats['indicator_columns_unmatched'] += 1
         if problems:
-            if name in findings:
+            def recorded_shape(p):
+                m = re.match(r'column \S+ has (\d+) values for (\d+) dates', p)
+                return (m and int(m.group(1)) == int(m.group(2)) + 1) or ('is drawn +1 day(s) away' in p)
+            if name in findings and all(recorded_shape(p) for p in problems):
                 known[name] += 1
                 continue
             bad += 1
